@@ -19,35 +19,38 @@ type tokKind uint8
 const (
 	tNum tokKind = iota
 	tOp
-	tMask // hintmask/cntrmask operator followed by its mask bytes
-	tCall // subroutine call: number + callsubr/callgsubr
-	tRaw  // raw bytes (mutants only)
+	tMask    // hintmask/cntrmask operator followed by its mask bytes
+	tCall    // subroutine call: number + callsubr/callgsubr
+	tRaw     // raw bytes (mutants only)
+	tBadCall // call with a subroutine number outside the INDEX (mutants only)
 )
 
 type tok struct {
-	kind tokKind
-	v    float64
-	enc  reft2.NumEnc
-	op   int
-	mask []byte
-	raw  []byte
-	sub  *body // tCall
-	sp   int   // static operand stack depth before the token
-	stmt bool  // first token of a statement that starts with an empty stack
+	kind   tokKind
+	v      float64
+	enc    reft2.NumEnc
+	op     int
+	mask   []byte
+	raw    []byte
+	sub    *body // tCall
+	global bool  // tBadCall
+	which  int   // tBadCall: 0 = first index beyond the end, 1 = index -1, 2 = far beyond
+	sp     int   // static operand stack depth before the token
+	stmt   bool  // first token of a statement that starts with an empty stack
 }
 
 // body is the main charstring or a subroutine.
 type body struct {
-	toks   []tok
-	global bool
-	index  int  // position in its INDEX (assigned late)
-	noRet  bool // do not append return (body ends in endchar)
+	toks    []tok
+	global  bool
+	index   int  // position in its INDEX (assigned late)
+	noRet   bool // do not append return (body ends in endchar)
 	deadRet bool // append return although the body ends in endchar
 }
 
 func is16(v float64) bool { s := v * 65536; return s == math.Trunc(s) }
 
-func inRange(v float64) bool { return v > -32768 && v < 32768 && is16(v) }
+func inRange(v float64) bool { return v >= -32768 && v < 32768 && is16(v) }
 
 // ---------------------------------------------------------------------------
 // flat program generator
@@ -57,10 +60,10 @@ type pgen struct {
 	toks []tok
 	sp   int
 
-	pArith  int // percent: an operand is produced by an expression
-	pFrac   int // percent: a coordinate has a fractional part
-	pOddEnc int // percent: a number uses a non-canonical encoding
-	inexact bool
+	pArith   int // percent: an operand is produced by an expression
+	pFrac    int // percent: a coordinate has a fractional part
+	pOddEnc  int // percent: a number uses a non-canonical encoding
+	inexact  bool
 	allowBig bool
 
 	hasWidth  bool
@@ -255,7 +258,7 @@ func (g *pgen) value(v float64, depth int) {
 		return
 	case 9: // v j1..jk k index, k+1 1 roll, k+1 drops
 		k := g.intn(1, 3, "ik")
-		if !g.room(k + 3) {
+		if !g.room(k + 4) {
 			break
 		}
 		g.value(v, depth+1)
@@ -772,9 +775,9 @@ func (g *pgen) moveStmt() {
 
 // progOpts selects the flavour of a program.
 type progOpts struct {
-	pArith, pFrac, pOddEnc int
+	pArith, pFrac, pOddEnc       int
 	inexact, allowBig, allowFlex bool
-	nominal              float64
+	nominal                      float64
 }
 
 func drawOpts(t *rapid.T) progOpts {
@@ -979,6 +982,25 @@ func appendTok(out []byte, t tok, tb subrTables) []byte {
 		return append(reft2.AppendOp(out, t.op), t.mask...)
 	case tRaw:
 		return append(out, t.raw...)
+	case tBadCall:
+		n, op := tb.nLocal, reft2.OpCallSubr
+		if t.global {
+			n, op = tb.nGlobal, reft2.OpCallGSubr
+		}
+		bias := reft2.Bias(n)
+		v := n - bias
+		switch t.which {
+		case 1:
+			if -1-bias >= -32768 {
+				v = -1 - bias
+			}
+		case 2:
+			if n+1000-bias <= 32767 {
+				v = n + 1000 - bias
+			}
+		}
+		out = reft2.AppendNumber(out, float64(v), reft2.EncAuto)
+		return reft2.AppendOp(out, op)
 	case tCall:
 		n := tb.nLocal
 		op := reft2.OpCallSubr
@@ -1019,6 +1041,8 @@ func (b *body) text() string {
 			fmt.Fprintf(&sb, "%s[%x]", reft2.OpName(t.op), t.mask)
 		case tRaw:
 			fmt.Fprintf(&sb, "raw[%x]", t.raw)
+		case tBadCall:
+			fmt.Fprintf(&sb, "badcall(global=%v,which=%d)", t.global, t.which)
 		case tCall:
 			k := "L"
 			if t.sub.global {
